@@ -117,11 +117,31 @@ def mk(T, abi, tier):
     return out
 
 
+def mk_complex(T, abi):
+    """complex vector types: interleaved load/store, + - * with vector and scalar operands, negation, conj, horizontal sum"""
+    w = CT[T][1]; L = 1 if abi == 'scalar' else BITS[abi] // w; X = cxx(T); V = f'SIMDVector<{X},simd_abi::{abi}>'
+    A = lambda nm='a', n=L: Buf(nm, T, n); O = lambda n=L: Buf('o', T, n, 'out')
+    ld = lambda nm: f'{V} {nm.upper()}({nm},false);'; st = 'R.store(o,false);'
+    loop = lambda body: f'for(int i=0;i<{L};++i) {{ {body} }}'
+    out = []
+    def add(op, k, r, args): out.append(SV(T, abi, op, k, r, args, dom='real'))
+    add('loadstore_u', f'{V} R(a,false); {st}', loop('o[i]=a[i];'), [A(), O()])
+    for nm, cop in (('add', '+'), ('sub', '-'), ('mul', '*')):
+        add(f'{nm}_vv', f'{ld("a")} {ld("b")} {V} R = A {cop} B; {st}', loop(f'o[i]=a[i]{cop}b[i];'), [A(), A('b'), O()])
+    add('mul_vs', f'{ld("a")} {V} R = A * b[0]; {st}', loop('o[i]=a[i]*b[0];'), [A(), A('b', 1), O()])
+    add('neg', f'{ld("a")} {V} R = -A; {st}', loop('o[i]=-a[i];'), [A(), O()])
+    add('bcast_ctor', f'{V} R(a[0]); {st}', loop('o[i]=a[0];'), [A('a', 1), O()])
+    add('conj', f'{ld("a")} {V} R = conj(A); {st}', loop('o[i]=std::conj(a[i]);'), [A(), O()])
+    add('hsum', f'{ld("a")} o[0]=A.sum();', f'{X} s=0; for(int i=0;i<{L};++i) s+=a[i]; o[0]=s;', [A(), O(1)])
+    return out
+
+
 def cases(tier, cfg, seed):
     out = []
     for abi in ABIS[cfg.isa]:
         for T in ALLT:
             out += mk(T, abi, tier)
+        for T in ('cfloat', 'cdouble'): out += mk_complex(T, abi)
     return out
 
 
@@ -130,7 +150,7 @@ def cfgs(tier): return [Cfg(i, 17, 'O2') for i in (build.MAIN_ISAS if tier == 'q
 
 def bounds(tier):
     return {'types': ALLT, 'abis_per_isa': ABIS, 'ops_per_specialisation': len(mk('float', 'sse', tier)),
-            'outside': 'complex SIMD vectors, shift(), multi-argument set(), cast<>, rcp/rsqrt accuracy, fixed_size<N> generic vectors of other element types'}
+            'outside': 'complex division / abs / arg, shift(), multi-argument set(), cast<>, rcp/rsqrt accuracy, fixed_size<N> generic vectors of other element types'}
 
 
 def on_compile_fail(case, cfg, cf): return 'skip'
@@ -140,7 +160,7 @@ def mandatory(case_id, cfg_key): return False
 
 
 def post_case(c, cfg, r):
-    if c.dom == 'real' and r.get('depth_max', 0) > 2 * lanes(c.T, c.abi) + 1:
+    if c.dom == 'real' and c.T in ALLT and r.get('depth_max', 0) > 2 * lanes(c.T, c.abi) + 1:
         return [f'rounding depth {r["depth_max"]} exceeds 2*lanes']
     return []
 
